@@ -662,6 +662,7 @@ func drawCompoundKind(t *rapid.T) Kind {
 		k.fields = append(k.fields, numKinds[pick(t, []string{"u8", "u16", "u32", "u64", "i8", "i16", "i32", "i64", "f32", "f64"}, "ftype")])
 	}
 	k.hasStr = nf == 0 || drawInt(t, 0, 1, "hasstr") == 1
+	k.asym = drawInt(t, 0, 3, "asym") == 0
 	return k
 }
 
